@@ -706,4 +706,18 @@ B('FW-csv-quote-char-dropped', ['C16'], 'frame.py', 'Frame.from_csv',
 N('FW-keyword-to-position', ['C16'], 'frame.py', 'Frame.from_tsv',
   'return cls.from_delimited(fp,', 'return cls.from_delimited(fp=fp,')
 
+# ---------------------------------------------------------------------------------- set_index family (C20)
+B('SI-drop-other-column', ['C20'], 'frame.py', 'Frame.set_index',
+  '            columns = self._columns._drop_iloc(column_iloc)\n            own_data = True', '            columns = self._columns._drop_iloc(0)\n            own_data = True', 'E.pair[set-index]', 'Frame.set_index')
+B('SI-index-from-reordered', ['C20'], 'frame.py', 'Frame.set_index_hierarchy',
+  '            blocks_src = self._blocks._extract(row_key=order_lex)', '            blocks_src = self._blocks', 'E.pair[set-index]', 'set_index_hierarchy')
+B('SI-unset-labels-behind', ['C20'], 'frame.py', 'Frame.unset_index',
+  '            columns = chain(self._index.names, self._columns.values)', '            columns = chain(self._columns.values, self._index.names)', 'E.pair[set-index]', 'unset_index')
+B('SI-unset-blocks-behind', ['C20'], 'frame.py', 'Frame.unset_index',
+  '            yield self.index.values # 2D immutable array\n            for b in self._blocks._blocks:\n                yield b', '            for b in self._blocks._blocks:\n                yield b\n            yield self.index.values', 'E.pair[set-index]', 'unset_index')
+B('SI-name-dropped', ['C20'], 'frame.py', 'Frame.set_index',
+  '                own_index=True,\n                name=self._name\n                )\n\n    def set_index_hierarchy', '                own_index=True,\n                )\n\n    def set_index_hierarchy', 'E.pair[set-index]', 'Frame.set_index')
+N('SI-hoist-iloc', ['C20'], 'frame.py', 'Frame.set_index',
+  '            index_values = self._blocks._extract_array(column_key=column_iloc)\n            name = column', '            key_pos = column_iloc\n            index_values = self._blocks._extract_array(column_key=key_pos)\n            name = column')
+
 VARIANTS = V
